@@ -1,7 +1,9 @@
-"""C50 — ordering lists and association proxies behave as their collection types: OrderingList position bookkeeping under proof,
-operation sequences (bound / un-instrumented OrderingList, association proxies) as the bounded complement."""
+"""C50 — ordering lists and association proxies behave as their collection types: OrderingList position bookkeeping and the
+list proxy _AssociationList (append, extend, pop, int-index get/set/del, clear, len against the view of proxied values) under
+proof; operation sequences (bound / un-instrumented OrderingList, association proxies) as the bounded complement."""
 import importlib
 import contracts.orderinglist  # noqa: F401
+import contracts.assoc_list  # noqa: F401
 from pyvc.contract import FUNCS
 from vlib.proof import run_proofs
 
@@ -16,5 +18,6 @@ def run(run, tier, seed, args):
     run.assumptions += [
         "the ordering attribute is a ghost field `pos` read/written by _get_order_value/_set_order_value (getattr/setattr on the configured name); ordering_func is pure",
         "no entity occurs twice in the list (precondition); super().<op> is the builtin list operation",
-        "under proof: _order_entity, reorder, append, insert, pop, remove, __delitem__(int); __setitem__ (known defects DESIGN §6 #6/#7), inherited extend/sort/reverse (#18) and the association proxies are in the bounded complement",
+        "under proof: _order_entity, reorder, append, insert, pop, remove, __delitem__(int); __setitem__ (known defects DESIGN §6 #6/#7), inherited extend/sort/reverse (#18) are in the bounded complement",
+        "_AssociationList: view = [getter(m) for m in col]; getter / creator are pure and _create(value) returns an object whose proxied value is value (the round trip the class documents as assumed); `col` (lazy_collection()) is read as a list attribute; insert / slices / remove / iteration / the set and dict proxies are in the bounded complement",
     ]
